@@ -34,7 +34,7 @@ IOPS = {'+': operator.iadd, '-': operator.isub, '*': operator.imul, '/': operato
 def gates(tier):
     return {'raw_ops': 8000, 'raw_value_outcomes': 1500, 'raw_error_outcomes': 3000,
             'string_evals': 3000, 'string_error_outcomes': 800, 'triple_products': 100,
-            'negpow_disabled_calls': 100, 'identity_dim_calls': 400, 'inplace_ops': 1500, 'reflected_ops': 1500}
+            'negpow_disabled_calls': 100, 'identity_dim_calls': 400, 'inplace_ops': 1500, 'reflected_ops': 1500, 'division_chain_checks': 500, 'negpow_disabled_calls_with_suppressed_messages': 40}
 
 
 def is_scalar(x):
@@ -409,8 +409,10 @@ def run_grader(ctx):
             from mitxgraders import DependentSampler
             extra_vars = ['c', 'B']
             extra_sf = {'c': DependentSampler(formula='2+1'), 'B': DependentSampler(formula='A*A')}
+        # (with suppress_matrix_messages the refusal is not shown: the submission is graded wrong without a message)
+        suppress = rng.random() < 0.3
         g = MatrixGrader(answers='A', variables=['A'] + extra_vars, sample_from=dict({'A': RealMatrices(shape=[2, 2])}, **extra_sf),
-                         negative_powers=negpow, max_array_dim=2)
+                         negative_powers=negpow, max_array_dim=2, **({'suppress_matrix_messages': True} if suppress else {}))
         sub = rng.choice(['(A^-1)^-1', 'A^-1*A*A', 'A^(-1)*A^2', 'A*A^-2*A^2', '[[1,2],[3,4]]^-1*[[1,2],[3,4]]*A',
                           'A^[-1]*A*A', 'A^-[1]*A^2', 'A^[[-1]]*A*A', 'A^(0-1)*A^2', 'A^(-[1]*[1])*A^2'])
         out = lib.call(ctx, g, None, sub)
@@ -422,7 +424,12 @@ def run_grader(ctx):
                 ctx.violation('C14:grader:negative_power_not_inverse', 'expected correct, got %r' % (out.brief(),), wit)
         else:
             ctx.count('negpow_disabled_calls')
-            if out.returned or not isinstance(out.exc, MathArrayError):
+            if suppress:
+                ctx.count('negpow_disabled_calls_with_suppressed_messages')
+                if not out.returned or out.value['ok'] is not False or out.value['msg'] != '':
+                    ctx.violation('C14:grader:negative_power_not_refused:suppressed_messages', 'disabled, yet %r' % (out.brief(),),
+                                  dict(wit, suppress_matrix_messages=True))
+            elif out.returned or not isinstance(out.exc, MathArrayError):
                 ctx.violation('C14:grader:negative_power_not_refused', 'disabled, yet %r' % (out.brief(),), wit)
         if MathArray._negative_powers is not True:
             ctx.violation('C14:grader:negpow_flag_leaked', 'class flag is %r after the call' % MathArray._negative_powers, wit)
@@ -432,6 +439,43 @@ def run_grader(ctx):
         if not chk.returned:
             ctx.violation('C14:grader:negative_powers_stay_disabled', 'raw inverse after the call: %r' % (chk.brief(),), wit)
         ctx.nontrivial(['grader', negpow, sub])
+
+
+DIVISION_CHAINS = [
+    # string, value or None (= dividing by an array: always an error, wherever in a run of divisions it stands)
+    ('u/v/w', None), ('x/v/w', None), ('M*u/v/w', None), ('u/2/v/w', None), ('x/R/C', None), ('u/v/2', None), ('u/2/v', None), ('x/2/v', None),
+    ('u/(v*w)/v', None), ('1/v/w', None), ('x/C/R', None), ('u*v/w/v', None), ('x/v/v/v', None), ('u/v/w/2', None), ('x/M/M', None),
+    ('u/2/4', [0.125, 0.25, 0.375]), ('x/2/4', 0.75), ('u/(v*w)', [1 / 32., 2 / 32., 3 / 32.]), ('u/(v*w)/2', [1 / 64., 2 / 64., 3 / 64.]),
+    ('u*v/(v*w)/2', 14 / 64.), ('x/(R*C)', 6 / 32.), ('u/x/x', [1 / 36., 2 / 36., 3 / 36.]), ('M*u/2/x', [14 / 12., 32 / 12., 50 / 12.]),
+]
+
+
+def run_division_chains(ctx):
+    from mitxgraders.helpers.calc import evaluator, DEFAULT_FUNCTIONS, DEFAULT_VARIABLES, MathArray
+    from mitxgraders.helpers.calc.exceptions import CalcError
+    for rep in range(ctx.pick(2, 6)):
+        for s_, want in DIVISION_CHAINS:
+            variables = dict(DEFAULT_VARIABLES, x=6.0, u=MathArray([1., 2., 3.]), v=MathArray([1., 2., 3.]), w=MathArray([4., 5., 6.]),
+                             R=MathArray([[1., 2., 3.]]), C=MathArray([[4.], [5.], [6.]]), M=MathArray([[1., 2., 3.], [4., 5., 6.], [7., 8., 9.]]))
+            for spelled in (s_, s_.replace('/', ' / ')):
+                out = lib.call(ctx, lambda: evaluator(spelled, variables, DEFAULT_FUNCTIONS, {}, max_array_dim=2)[0])
+                ctx.ev()
+                ctx.count('division_chain_checks')
+                ctx.nontrivial('divchain:' + spelled)
+                wit = {'string': spelled, 'x': 6.0, 'u': [1, 2, 3], 'v': [1, 2, 3], 'w': [4, 5, 6], 'R': '1x3 matrix [[1,2,3]]', 'C': '3x1 matrix [[4],[5],[6]]',
+                       'M': '3x3 matrix 1..9', 'expected': want if want is not None else 'error: division by an array', 'outcome': out.brief()}
+                if want is None:
+                    if out.returned:
+                        ctx.violation('C14:strings:division_chain:array_divisor_accepted', '%r returned %r' % (spelled, out.value), wit)
+                    elif not isinstance(out.exc, CalcError) and not student_facing(out.exc):
+                        ctx.violation('C14:strings:division_chain:foreign_error', repr(out.exc), wit)
+                elif not out.returned:
+                    ctx.violation('C14:strings:division_chain:valid_refused', repr(out.exc), wit)
+                else:
+                    with np.errstate(all='ignore'):
+                        good = np.shape(out.value) == np.shape(want) and bool(np.allclose(np.asarray(out.value, dtype=complex), np.asarray(want, dtype=complex), rtol=1e-12))
+                    if not good:
+                        ctx.violation('C14:strings:division_chain:value', '%r = %r, expected %r' % (spelled, out.value, want), wit)
 
 
 def run_identity(ctx):
@@ -476,6 +520,7 @@ def run(ctx):
         run_raw(ctx)
         run_strings(ctx)
     run_grader(ctx)
+    run_division_chains(ctx)
     run_identity(ctx)
     lib.repo_tests_under_monitor(ctx, 'C14', ['state'])
     if ctx.shard == 0:
